@@ -801,14 +801,14 @@ def check_history(out, kind, h, npts, calls):
     snap = w.snapshot()
     inp = {"check": "history", "kind": kind, "h": h, "npts": npts, "calls": calls}
     res = None
-    last_yield = {}      # orbit -> index of the last earlier call on it that returned at least one state
+    first_yield = {}     # orbit -> index of the first earlier call on it that returned at least one state
     for i, c in enumerate(calls):
         res = do_call(w, c)
         if c["op"] == "modify":
             snap = w.snapshot()
             continue
         if i < len(calls) - 1 and (res[0] == "ok" or (res[0] == "iter" and len(res[2]) > 0)):
-            last_yield[c["orb"]] = i
+            first_yield.setdefault(c["orb"], i)
         if w.snapshot() != snap:
             out.fail(f"{kind}-receiver-modified-by-{c['op']}", "a propagate/iter call modified the orbit (or the ephemeris points) it was called on",
                      dict(inp, at=i))
@@ -831,12 +831,13 @@ def check_history(out, kind, h, npts, calls):
             "dates" if (res[0] == "iter" and main_dates(res) != main_dates(ref)) or (res[0] == "ok" and res[1] != ref[1]) else (
                 "events" if res[0] == "iter" and [e for e in res[4] if e] != [e for e in ref[4] if e] else "state"))
         # family: propagator kind, kind of the last call, what differs, and whether the receiver of the last call had been
-        # modified in place by the user since the last call on it that returned a state (something derived from the orbit
-        # that is not refreshed: after a change of its coordinates / of its drag term only) or not (a shared object
-        # carrying state from call to call)
-        mods = [c for c in calls[last_yield.get(last["orb"], -1) + 1:-1] if c["op"] == "modify" and c["orb"] == last["orb"]]
-        changed = any(not c.get("meta") for c in mods)
-        drag = (not changed) and any(c.get("meta") for c in mods)
+        # modified in place by the user after a first call on it had returned a state (something derived from the orbit
+        # that is not refreshed; the LAST such modification being a change of its coordinates / of its drag term: a later
+        # change of the coordinates makes the current Sgp4 rebuild its record) or not (a shared object carrying state from
+        # call to call)
+        mods = [c for c in calls[first_yield.get(last["orb"], len(calls)) + 1:-1] if c["op"] == "modify" and c["orb"] == last["orb"]]
+        changed = bool(mods) and not mods[-1].get("meta")
+        drag = bool(mods) and bool(mods[-1].get("meta"))
         if (changed or drag) and what == "events":
             what = "state"          # another trajectory has other events: one family with the states themselves
         fam = (f"{kind}-history-dependent-{what}-after-inplace-change" if changed else
